@@ -688,6 +688,9 @@ R_<TG_, TA_>::load(ReadStream& stream) noexcept {
 	_core.registry.compoResumable.clear();
 	_apex.deepLoadRequested(_core.registry, stream);
 
+	// the exits performed below would overwrite the resumable marks just loaded
+	const auto loadedResumable = _core.registry.compoResumable;
+
 	_core.requests.clear();
 	// TODO: load(stream, _core.requests);
 
@@ -713,6 +716,8 @@ R_<TG_, TA_>::load(ReadStream& stream) noexcept {
 	PlanControl control{_core, emptyTransitions};
 
 	_apex.deepChangeToRequested(control);
+
+	_core.registry.compoResumable = loadedResumable;
 
 	HFSM2_IF_STRUCTURE_REPORT(udpateActivity());
 }
